@@ -49,7 +49,10 @@ def db():
     for k, f in enumerate(FORMATS):
         chars.append({"iid": 20 + k, "type": "00000025-0000-1000-8000-0026BB765291" if k == 0 else f"0000010{k}-0000-1000-8000-0026BB765291",
                       "perms": ["pr", "ev"], "format": f, "value": None})
-    return [{"aid": 1, "services": [{"iid": 10, "type": "00000043-0000-1000-8000-0026BB765291", "characteristics": chars}]}]
+    proto = {"iid": 5, "type": "000000A2-0000-1000-8000-0026BB765291", "characteristics": [
+        {"iid": 6, "type": "00000037-0000-1000-8000-0026BB765291", "perms": ["pr"], "format": "string", "value": "2.2.0"},
+        {"iid": 7, "type": "000000A5-0000-1000-8000-0026BB765291", "perms": ["pr"], "format": "data", "value": None}]}
+    return [{"aid": 1, "services": [proto, {"iid": 10, "type": "00000043-0000-1000-8000-0026BB765291", "characteristics": chars}]}]
 
 
 def gen_plan(seed: int, tier: str) -> dict:
@@ -58,7 +61,7 @@ def gen_plan(seed: int, tier: str) -> dict:
     ops = []
     for _ in range(r.randint(3, 30)):
         kind = r.choice(["next", "next", "next", "skip", "skip", "current", "older", "beyond", "replay_exact", "wrong_key", "wrong_adv_id", "bitflip", "bitflip",
-                         "inner_mismatch", "truncate", "extend", "duplicate", "regular", "other_device"])
+                         "inner_mismatch", "truncate", "extend", "duplicate", "regular", "other_device", "rekey", "superseded_key", "superseded_key"])
         op = {"kind": kind, "k": r.randrange(2, 100), "far": r.choice([100, 101, 150, 1000, 40000]), "back": r.randrange(1, 50), "fmt": r.randrange(len(FORMATS)),
               "val": r.randrange(2**63), "bit": r.randrange(16 * 8), "n": r.randrange(0, 16), "delta": r.choice([1, -1, 2, 255, 256])}
         ops.append(op)
@@ -129,7 +132,7 @@ def execute(plan: dict, ch: Chooser) -> dict:
     accepted_any = rejected_any = False
 
     async def main():
-        nonlocal accepted_any, rejected_any
+        nonlocal accepted_any, rejected_any, key
         from aiohomekit.controller.ble.controller import BleController
 
         cache = CharacteristicCacheMemory()
@@ -164,6 +167,7 @@ def execute(plan: dict, ch: Chooser) -> dict:
             ctx.violate("setup", "", f"regular advert did not set state number {g}: {p.description}")
             return
         history: list[tuple[bytes, int]] = []  # accepted genuine adverts (payload, n)
+        old_keys: list[bytes] = []  # broadcast keys superseded by a re-key
         for i, op in enumerate(plan["ops"]):
             kind = op["kind"]
             fmt = FORMATS[op["fmt"]]
@@ -171,6 +175,29 @@ def execute(plan: dict, ch: Chooser) -> dict:
             v8, want_val = value_bytes(fmt, op["val"])
             use_key, use_id, n_nonce = key, adv_id, g + 1
             inner = None
+            if kind == "rekey":
+                # a new session re-derives the broadcast key (real _async_set_broadcast_encryption_key; the GATT request it makes and
+                # the session's derive function are harness stubs): from now on only the new key is valid
+                new_key = ch.nbytes("rekey", 32)
+
+                async def no_request(*a, **k):
+                    return b""
+
+                p._async_request_under_lock = no_request
+                p._derive = lambda salt, info, length=32, _k=new_key: _k
+                try:
+                    async with p._operation_lock:
+                        await p._async_set_broadcast_encryption_key()
+                except Exception as e:  # noqa: BLE001
+                    ctx.violate("rekey-raises", type(e).__name__, f"setting a new broadcast key raised {e!r}")
+                    return
+                old_keys.append(key)
+                key = new_key
+                ctx.probe("rekeyed")
+                ctx.event("rekey", i)
+                if p.broadcast_key != new_key:
+                    ctx.violate("rekey-not-stored", "", "pairing.broadcast_key is not the newly derived key")
+                continue
             if kind == "regular":
                 # a regular advert with the same numbers must not disturb anything
                 before = [len(x) for x in logs]
@@ -188,6 +215,8 @@ def execute(plan: dict, ch: Chooser) -> dict:
                 n_nonce = g + op["far"]
             elif kind == "wrong_key":
                 use_key = other_key
+            elif kind == "superseded_key":
+                use_key = old_keys[op["n"] % len(old_keys)] if old_keys else other_key
             elif kind in ("wrong_adv_id", "other_device"):
                 use_id = other_id
             elif kind == "inner_mismatch":
